@@ -11,6 +11,7 @@
   cluster-level tie is E4: at every acknowledgement the voters' logs are inspected.
 -/
 import RaftVerif.Proofs.LeaderSpecs
+import RaftVerif.Proofs.ReplSafety
 import RaftVerif.Properties.C06
 set_option linter.unusedSimpArgs false
 namespace Raft
@@ -80,5 +81,16 @@ def exL : Node :=
     log := { ents := [⟨1, 1, kConfig, 0, none⟩, ⟨2, 2, kNoop, 0, none⟩] },
     followers := [{ id := 1 }, { id := 2, next := 3, mtch := 2 }, { id := 3, next := 1, mtch := 0 }] }
 example : (exL.commitStep 0).1.commitIndex = 2 := by decide
+
+/-! ### Cluster level (Proofs/ReplSafety.lean) -/
+
+/-- **What is committed stays committed**: a committed prefix (a leader advanced its commit
+    index over it, i.e. acknowledged it to the client) is still a committed prefix in every
+    later state — across crashes of any nodes, leader changes and further appends — and so
+    (C01) a prefix of, or extended by, whatever any node commits later. -/
+theorem C04_committed_is_stable {cfg : Config} (hnd : cfg.voterIds.Nodup) {s s' : Repl.AState} (hr : Repl.Reachable cfg s)
+    (hfrom : Repl.ReachableFrom cfg s s') (a : Nat) :
+    Repl.IsCommitted cfg s' (s.nodes a).term ((s.nodes a).log.take (s.nodes a).commit) :=
+  Repl.committed_stable hnd hr hfrom ((Repl.inv_reachable hnd hr).commit_ok a).2
 
 end Raft
